@@ -58,9 +58,14 @@ structure LSchema where
   /-- revision of `ietf-netconf-with-defaults` when the context has it (`ly_ctx_get_module_latest`) -/
   wd : Option (Option Bytes)
 
-def wdModName : Bytes := bytesOfString "ietf-netconf-with-defaults"
-def wdAnnotName : Bytes := bytesOfString "default"
-def wdAnnotVal : Bytes := bytesOfString "true"
+/-- "ietf-netconf-with-defaults" -/
+def wdModName : Bytes := [105, 101, 116, 102, 45, 110, 101, 116, 99, 111, 110, 102, 45, 119, 105, 116, 104, 45, 100, 101, 102, 97, 117, 108, 116, 115]
+/-- "default" -/
+def wdAnnotName : Bytes := [100, 101, 102, 97, 117, 108, 116]
+/-- "true" -/
+def wdAnnotVal : Bytes := [116, 114, 117, 101]
+/-- "false" -/
+def wdAnnotFalse : Bytes := [102, 97, 108, 115, 101]
 /-- how the dump names the annotation instance -/
 def wdMeta : Meta := ("ietf-netconf-with-defaults:default", wdAnnotVal)
 
@@ -319,7 +324,7 @@ def pMetas (P : Params) (S : LSchema) : Nat → R → Option (R × List Meta)
                 match rread P r4 vl with
                 | (r5, aval) =>
                   if aname != wdAnnotName then none
-                  else if aval != wdAnnotVal && aval != bytesOfString "false" then none
+                  else if aval != wdAnnotVal && aval != wdAnnotFalse then none
                   else
                     match pMetas P S n r5 with
                     | none => none
@@ -348,34 +353,33 @@ def pValue (P : Params) (ty : LTy) (r : R) : Option (R × Bytes) :=
     match (if n > 0 then rread P r n else (r, [])) with
     | (r2, b) => (decVal ty b).map fun v => (r2, v)
 
-/-- `lyb_parse_node` up to the schema node: node type, module of a top-level node, `lyb_parse_schema_hash`.
+/-- `lyb_parse_schema_hash`: `lyb_read_hashes`, then the first sibling (in `lys_getnext` order) whose hashes match.
 `modsOk`: the module is among the ones listed in the header (`lyb_has_schema_model`) -/
+def pHash (P : Params) (modsOk : Bool) (fc : FrameCtx) (r : R) : Option (Nat × R) :=
+  match rread P r 1 with
+  | (r3, b0) =>
+    let h0 := (b0.headD 0).toNat
+    if h0 = 0 then none                         -- opaque node: outside the model
+    else
+      match rdBytes1 P (firstBit h0) r3 with
+      | (r4, more) =>
+        if !modsOk then none
+        else
+          match parseSchemaHash fc.h fc.sibs.length (h0 :: more) with
+          | some (some k, []) => (fc.sibs[k]?).map fun sid => (sid, r4)
+          | _ => none
+
+/-- `lyb_parse_node` up to the schema node: node type, module of a top-level node, `lyb_parse_schema_hash` -/
 def pNodeHead (P : Params) (S : LSchema) (modsOk : Bool) (par : Option Nat) (fc : FrameCtx) (r : R) : Option (Nat × R) :=
   match rdNum P r R_NODETYPE with
   | (r1, nt) =>
-    let r2? : Option R :=
-      match par with
-      | none =>
-        if nt = LYB_NODE_TOP then
-          match pModel P r1 false with
-          | (r2, name, rev) => if modMatches name rev S.modName S.rev then some r2 else none
-        else none
-      | some _ => if nt = LYB_NODE_CHILD then some r1 else none
-    match r2? with
-    | none => none
-    | some r2 =>
-      match rread P r2 1 with
-      | (r3, b0) =>
-        let h0 := (b0.headD 0).toNat
-        if h0 = 0 then none                         -- opaque node: outside the model
-        else
-          match rdBytes1 P (firstBit h0) r3 with
-          | (r4, more) =>
-            if !modsOk then none
-            else
-              match parseSchemaHash fc.h fc.sibs.length (h0 :: more) with
-              | some (some k, []) => (fc.sibs[k]?).map fun sid => (sid, r4)
-              | _ => none
+    match par with
+    | none =>
+      if nt = LYB_NODE_TOP then
+        match pModel P r1 false with
+        | (r2, name, rev) => if modMatches name rev S.modName S.rev then pHash P modsOk fc r2 else none
+      else none
+    | some _ => if nt = LYB_NODE_CHILD then pHash P modsOk fc r1 else none
 
 mutual
 /-- one instance of the schema node `sid`: `lyb_parse_node_leaf`, `lyb_parse_node_inner`, the loop body of `lyb_parse_node_list` -/
